@@ -11,7 +11,25 @@ def hx(s):
     return b.hex() if b else "-"
 
 
+def rules(path):
+    """`--rules <file.xml>`: the member names the <rule> children of grouped definitions mention, one line per
+    (group, member): `grule <group name hex> <member name hex>` - used to build groups that repeat such members"""
+    root = ET.parse(path).getroot()
+    out = []
+    for app in root.findall("application"):
+        for a in app.findall("avp"):
+            data = a.find("data")
+            if data is None:
+                continue
+            for r in data.findall("rule"):
+                if r.get("avp"):
+                    out.append("grule %s %s" % (hx(a.get("name")), hx(r.get("avp"))))
+    print("\n".join(out))
+
+
 def main():
+    if sys.argv[1] == "--rules":
+        return rules(sys.argv[2])
     path, mode = sys.argv[1], sys.argv[2]
     source = " ".join(sys.argv[3:])
     root = ET.parse(path).getroot()
